@@ -117,8 +117,8 @@ def run(tier):
                 continue          # the input itself does not parse as an expression (not a formatter matter)
             rec = {"out": h(out), "again": h(again.get("value")) if again.get("status") == "ok" else "error:" + again.get("msg", "")[:40]}
             if b.get("status") != "ok":
-                # the recorded defect: a parenthesised `let .. in ..` written on one line loses its `in`
-                cause = "paren-let-in" if re.search(r"\(\s*let [^\n]* in ", j["src"]) and re.search(r"Expected\s+in\b", b.get("msg", "")) else "other"
+                # the recorded defect: a parenthesised `let .. in ..` loses its `in` (the message names the missing token)
+                cause = "paren-let-in" if re.search(r"\(\s*let\b", j["src"]) and re.search(r"Expected\s+in\b", b.get("msg", "")) else "other"
                 V.violation("output-unparsable:%s:%s" % (label, cause), "the formatter's output does not parse (%s): %s" % (j["kind"], b.get("msg", "")[:300]), dict(rep, out=out[:4000]))
                 continue
             try:
